@@ -27,10 +27,12 @@
     C16_ncc_masked_identical C16_ncc_masked_range C16_ncc_masked_symmetric C16_ncc_masked_affine_invariant
     C16_ncc_masked_affine_invariant_eps0 C16_ncc_mask_ignored C16_ncc_mask_ones C16_ncc_mask_accepted
     C16_mi_mask_ignored C16_mi_mask_selected C16_mi_mask_selected_loss
+    C16_module_norm_forms C16_module_norm_symmetric C16_module_norm_scale C16_module_norm_positive
 -/
 import Deepali.Proofs.LossesWrappers
 import Deepali.Proofs.LossesOverlap
 import Deepali.Proofs.LossesEncoding
+import Deepali.Proofs.LossesModules
 import Mathlib.Tactic.NormNum
 
 set_option linter.unusedSectionVars false
@@ -704,6 +706,95 @@ example :
     tverskyIndex .none fg lab none (3 / 10) (7 / 10) 0 false = .ok [1] ∧
     tverskyIndex .none oh lab none (3 / 10) (7 / 10) 0 false = .ok [1, 1] ∧
     (List.range 8).map (oneHot 2 4 lab.data) = [0, 1, 0, 0, 1, 0, 1, 1] := by
+  decide +kernel
+
+/-! ## normalisation factor of the module classes (SSD, L2ImageLoss/MSE, L1ImageLoss/MAE, HuberImageLoss,
+    SmoothL1ImageLoss): `NormalizedPairwiseImageLoss.__init__` (Model/LossModules.lean) -/
+
+section ModuleNorm
+variable {K : Type} [Field K] [LinearOrder K] [IsStrictOrderedRing K]
+
+/-- the documented forms of the `norm` argument: `True` is the same as `None`; `False` switches the
+    normalisation off (`self.norm = None`); a number or tensor is stored as it is; `None` with both images
+    gives `max_difference(source, target)²`; with one image the other is substituted; with no image nothing is
+    divided.  `forward` passes the stored value to the functional form (`moduleLoss`, definitionally). -/
+theorem C16_module_norm_forms (v : K) (s t : Option (Img K)) (p q : Img K) :
+    moduleNorm .true s t = moduleNorm .none s t ∧
+    moduleNorm .false s t = none ∧
+    moduleNorm (.value v) s t = some v ∧
+    moduleNorm .none (some p) (some q) = some ((maxDifference p.1 q.1 p.2 q.2) ^ 2) ∧
+    moduleNorm .none (some p) none = moduleNorm .none (some p) (some p) ∧
+    moduleNorm .none none (some q) = moduleNorm .none (some q) (some q) ∧
+    moduleNorm (α := K) .none none none = none ∧
+    (∀ kind red arg x y mask,
+      moduleLoss kind red arg s t x y mask = pointwiseLoss kind red x y mask (moduleNorm arg s t)) :=
+  ⟨rfl, rfl, rfl, by rw [moduleNorm_both, sq], rfl, rfl, rfl, fun _ _ _ _ _ _ => rfl⟩
+
+/-- the factor does not depend on which image is called source and which target
+    (`max_difference` is `max(|smax − tmin|, |tmax − smin|)`), for every form of the argument. -/
+theorem C16_module_norm_symmetric (arg : NormArg K) (s t : Option (Img K)) (n m : Nat) (f g : Nat → K) :
+    moduleNorm arg s t = moduleNorm arg t s ∧
+    maxDifference n m f g = maxDifference m n g f ∧
+    maxDifference n m f g = max |maxTo n f - minTo m g| |maxTo m g - minTo n f| :=
+  ⟨moduleNorm_symm arg s t, maxDifference_symm n m f g, maxDifference_eq n m f g⟩
+
+/-- intensities rescaled by `v ↦ c·v + b` with ANY `c ≠ 0` (for `c < 0` minimum and maximum trade places):
+    `max_difference` scales by `|c|`, the default factor by `c²`, and the default-normalised SSD
+    (`reduction = sum`, any other reduction too) and MSE (`L2ImageLoss`, mean) of the rescaled images equal
+    those of the original images whenever a positive factor is in effect (the factor is `0` exactly when both
+    reference images are one and the same constant; `C16_module_norm_positive`). -/
+theorem C16_module_norm_scale (c b : K) (hc : c ≠ 0) (s t : Option (Img K)) (n m : Nat) (f g : Nat → K) :
+    maxDifference n m (fun i => c * f i + b) (fun i => c * g i + b) = |c| * maxDifference n m f g ∧
+    moduleNorm .none (s.map (Img.affine c b)) (t.map (Img.affine c b))
+      = (moduleNorm .none s t).map (fun v => c ^ 2 * v) ∧
+    (∀ v, moduleNorm .none s t = some v → 0 < v → ∀ (x y : T K) (mask : Option (T K)),
+      let x' : T K := ⟨x.shape, fun i => c * x.data i + b⟩
+      let y' : T K := ⟨y.shape, fun i => c * y.data i + b⟩
+      (∀ red, moduleLoss .ssd red .none (s.map (Img.affine c b)) (t.map (Img.affine c b)) x' y' mask
+        = moduleLoss .ssd red .none s t x y mask) ∧
+      NormalizedClass.SSD.forward .none (s.map (Img.affine c b)) (t.map (Img.affine c b)) x' y' mask
+        = NormalizedClass.SSD.forward .none s t x y mask ∧
+      NormalizedClass.L2.forward .none (s.map (Img.affine c b)) (t.map (Img.affine c b)) x' y' mask
+        = NormalizedClass.L2.forward .none s t x y mask) :=
+  ⟨maxDifference_affine n m f g c b hc, moduleNorm_affine c b hc s t, fun v hv hpos x y mask =>
+    ⟨fun red => moduleLoss_ssd_affine c b hc red s t x y mask v hv hpos,
+     moduleLoss_ssd_affine c b hc .sum s t x y mask v hv hpos,
+     moduleLoss_ssd_affine c b hc .mean s t x y mask v hv hpos⟩⟩
+
+/-- the default factor is never negative, and it is positive as soon as the two reference images differ in
+    their extrema (`smax ≠ tmin` or `tmax ≠ smin`) — so the division in the functional form takes place. -/
+theorem C16_module_norm_positive (s t : Option (Img K)) (v : K) (h : moduleNorm .none s t = some v)
+    (p q : Img K) :
+    0 ≤ v ∧ (maxTo p.1 p.2 ≠ minTo q.1 q.2 ∨ maxTo q.1 q.2 ≠ minTo p.1 p.2 →
+      ∃ w, moduleNorm .none (some p) (some q) = some w ∧ 0 < w) := by
+  refine ⟨moduleNorm_nonneg s t v h, fun hne => ⟨_, moduleNorm_both p q, ?_⟩⟩
+  have h0 : 0 < maxDifference p.1 q.1 p.2 q.2 := by
+    rw [maxDifference_eq]
+    rcases hne with hne | hne
+    · exact lt_max_of_lt_left (abs_pos.mpr (sub_ne_zero.mpr hne))
+    · exact lt_max_of_lt_right (abs_pos.mpr (sub_ne_zero.mpr hne))
+  exact mul_pos h0 h0
+
+end ModuleNorm
+
+/-- concrete instance: source `[1, 4, 2]`, target `[0, 3]`: `max(|4 − 0|, |3 − 1|)² = 16`; every argument form;
+    rescaling by `v ↦ −2·v + 5` multiplies the factor by 4 and leaves the default-normalised SSD (11/16) and
+    MSE of `x = [1, 4, 2]`, `y = [0, 3, 5]` unchanged. -/
+example :
+    let s : Img ℚ := (3, fun i => [1, 4, 2].getD i 0)
+    let t : Img ℚ := (2, fun i => [0, 3].getD i 0)
+    let x : T ℚ := ⟨[1, 1, 3], fun i => [1, 4, 2].getD i 0⟩
+    let y : T ℚ := ⟨[1, 1, 3], fun i => [0, 3, 5].getD i 0⟩
+    let x' : T ℚ := ⟨[1, 1, 3], fun i => -2 * x.data i + 5⟩
+    let y' : T ℚ := ⟨[1, 1, 3], fun i => -2 * y.data i + 5⟩
+    moduleNorm .none (some s) (some t) = some 16 ∧ moduleNorm .true (some s) (some t) = some 16 ∧
+    moduleNorm .none (some s) none = some 9 ∧ moduleNorm .none none (some t) = some 9 ∧
+    moduleNorm .false (some s) (some t) = none ∧ moduleNorm (.value (7 / 2)) (some s) (some t) = some (7 / 2) ∧
+    moduleNorm .none (some (Img.affine (-2) 5 s)) (some (Img.affine (-2) 5 t)) = some 64 ∧
+    NormalizedClass.SSD.forward .none (some s) (some t) x y none = .ok [11 / 16] ∧
+    NormalizedClass.SSD.forward .none (some (Img.affine (-2) 5 s)) (some (Img.affine (-2) 5 t)) x' y' none = .ok [11 / 16] ∧
+    NormalizedClass.L2.forward .true (some s) (some t) x y none = .ok [11 / 48] ∧
+    NormalizedClass.SSD.forward .false (some s) (some t) x y none = .ok [11] := by
   decide +kernel
 
 end Deepali
